@@ -9,6 +9,8 @@ variant = sys.argv[1]
 extra = {
  'a': '',
  'b': '\nADDITIONAL REQUIREMENT: make the defect depend on TWO things at once (for example a particular size AND a particular position, or a particular kind AND a second call), and avoid the most obvious candidate function: pick a less central code path that the property still covers.',
+ 'd': '\nADDITIONAL REQUIREMENT: make TWO cooperating edits in two DIFFERENT functions (preferably different files), each of which looks harmless or even like a clean-up when reviewed alone and neither of which breaks the property alone; only together do they break it. patch.diff contains both. In meta.json describe both sites.',
+ 'e': '\nADDITIONAL REQUIREMENT: disguise the defect as a performance optimisation (a cache, a fast path, an early exit, a skipped copy, a reused buffer or agent) with a plausible comment; it must be wrong only in a corner case that ordinary use does not hit.',
  'c': '\nADDITIONAL REQUIREMENT: the change must be a one-token or one-line edit (an operator, a constant, an index expression, an omitted statement) somewhere OTHER than the function a reviewer would look at first; it must only matter for inputs that are large, deeply nested, or at a boundary.',
 }[variant]
 for pid in sys.argv[2:]:
@@ -16,6 +18,12 @@ for pid in sys.argv[2:]:
     tag = pid + variant
     wt = '/tmp/wt-' + tag
     prompt = TEMPLATE.format(wt=wt, pid=pid, title=p['title'], statement=p['statement'], quant=p['quantifier']['text'], hint=hints[pid], files=', '.join(p['anchors']['files']), tag=tag) + extra
+    import glob
+    used = []
+    for f in sorted(glob.glob('/verif/seeded/%s*/meta.json' % pid)):
+        used.append(json.load(open(f)).get('summary', '')[:400])
+    if used:
+        prompt += "\n\nALREADY USED by earlier seeds (pick something DIFFERENT: another function, another mechanism):\n" + "\n".join(" - " + u for u in used)
     open('/tmp/mut/prompts/%s.txt' % tag, 'w').write(prompt)
     if not os.path.exists(wt):
         subprocess.run(['git', '-C', '/repo', 'worktree', 'add', '--detach', wt, 'HEAD'], check=True, capture_output=True)
